@@ -58,6 +58,17 @@ def gen(rng, tier, index):
         n, m = (small, big) if direction == "feature" else (big, small)
         kind = "gauss"
     X = gens.matrix(rng, n, m, kind)
+    if cls in sel.CUR_FAMILY and (index // len(sel.VARIANTS)) % 6 == 1 and min(n, m) >= 3:
+        # items in mixed units: one to three of order one, the others 6 to 8 decades smaller (all of full rank): their
+        # importance scores are tiny, not zero, and stay distinct
+        r2 = np.random.default_rng(index)
+        Nax = m if direction == "feature" else n
+        small = np.ones(Nax, bool)
+        small[r2.permutation(Nax)[: int(r2.integers(1, 4))]] = False
+        fac = np.where(small, 10.0 ** -r2.uniform(6, 8, size=Nax), 1.0)
+        X = r2.normal(size=(n, m))
+        X = X * fac[None, :] if direction == "feature" else X * fac[:, None]
+        kind = "mixed_units"
     unit = 1.0
     if rng.random() < 0.25:  # the same data in small / large units (exact power of two)
         unit = float(2.0 ** int(rng.integers(-26, 14)))
